@@ -48,6 +48,7 @@ func checkC01(c *core.Ctx, r *core.Report) {
 		"(8) BOUND — a value length that is narrowed to the 16-bit TLV length field is bounded by a dominating comparison (a longer value is rejected, not truncated); " +
 		"(9) OWNSTR — a zero-copy string made from bytes the function does not own (utils.UnsafeByteSliceToString of a read buffer) is not kept: not stored into a field, element or global, not inserted into a map, not returned or sent, also through repository callees (depth 3); sites accepted by reading are listed with their reason; " +
 		"(11) NARROWINDEX — no index, slice bound or widened operand anywhere in the repository is a product or left shift computed in an 8/16-bit unsigned type from a non-constant value (a record number times an element width wraps); " +
+		"(12b) CONSTSIZE — a constant encoded length is recorded in the store's size table (which lets the reader seek by multiplication) only where the record count is known to be zero, the twin of the backfill predicate; " +
 		"(12) MIDBLOCK — the backfill of a column that first appears in the middle of a block is governed only by the column's absence from the block and a non-zero record count (not by the type of its first value); " +
 		"(13) FLATTEN (shared with C16) — the per-key callback of the JSON flattener hands every key's value to a value handler on every successful path (no key, and for an object or array no subtree, is silently dropped from the stored event); " +
 		"(10) OPENSEG — the per-block bookkeeping of the open segment (column set, block summaries, block metadata) is extended on every call of updateUnrotatedBlockInfo, not only where the segment's record is created."
@@ -65,6 +66,7 @@ func checkC01(c *core.Ctx, r *core.Report) {
 	c01OwnStrings(c, r)
 	c01NarrowIndex(c, r)
 	c01MidBlockBackfill(c, r)
+	c01ConstantSize(c, r)
 	c01OpenSegmentBookkeeping(c, r)
 	checkFlattenerDispatch(c, r)
 }
